@@ -87,10 +87,14 @@ def impl_read(ds, var, sel, w, g):
             else:
                 # decode (r, c) from the first selected band; other bands must agree
                 v = a[0, i, j]
+                if not np.isfinite(v):
+                    row.append(f'?{v}')
+                    continue
                 b0 = (sel[0] - 1) if isinstance(sel, list) else (sel - 1)
                 code = int(v) - 64 * b0 - 1
                 r, c = divmod(code, 8)
-                okb = all(int(a[bi, i, j]) == img_value(r, c, (sel[bi] - 1) if isinstance(sel, list) else b0)
+                okb = all(np.isfinite(a[bi, i, j]) and
+                          int(a[bi, i, j]) == img_value(r, c, (sel[bi] - 1) if isinstance(sel, list) else b0)
                           for bi in range(a.shape[0]))
                 row.append(f'{r}.{c}' if okb and v == int(v) else f'?{v}')
         rows.append(' '.join(row))
